@@ -50,12 +50,23 @@ pub open spec fn errs_fit(es: Seq<SplError>, d: int) -> bool {
     open spec fn shifted(self, offset: usize, r: Self) -> bool { r == err_plus(self, offset as int) }
 //@end
 
-//~assume `impl Shiftable for Vec<SplError>` (error.rs: into_iter().map(shift).collect()) moves every element and keeps order: iterator adapters are outside Verus; bounded-checked by Kani unit vecshift
+//~assume `v.into_iter().map(f).collect()` applies f to every element in order (std iterator semantics; R6); `impl Shiftable for Vec<SplError>` is verified on top of it (and bounded-checked by Kani unit vecshift)
+#[verifier::external_body]
+pub fn errs_map_collect<F: Fn(SplError) -> SplError>(v: Vec<SplError>, f: F) -> (r: Vec<SplError>)
+    requires forall|i: int| 0 <= i < v@.len() ==> call_requires(f, (#[trigger] v@[i],)),
+    ensures r@.len() == v@.len(), forall|i: int| 0 <= i < v@.len() ==> call_ensures(f, (v@[i],), #[trigger] r@[i]),
+{ v.into_iter().map(f).collect() }
 //@extract spl_frontend/src/error.rs :: impl Shiftable for Vec<SplError>
+//@ rewrite errs_map_collect
 //@ open
     open spec fn shift_ok(self, offset: usize) -> bool { errs_fit(self@, offset as int) }
     open spec fn shifted(self, offset: usize, r: Self) -> bool { r@ == errs_plus(self@, offset as int) }
-//@ attr fn shift
-    #[verifier::external_body]
+//@ closure |err| : SplError
+ -> (out: SplError)
+            requires range_fits(err.0, offset as int),
+            ensures out == err_plus(err, offset as int)
+//@ before "errs_map_collect(self"
+let r_ = 
+//@ at_end fn shift
+; proof { assert(r_@ =~= errs_plus(self@, offset as int)); } r_
 //@end
-
